@@ -87,6 +87,7 @@ class Executor:
         self.task_self = None
         self.uses_lsum = False
         self._lt_cache = {}
+        self.dict_terms = {}              # id -> Ref term of every dict object met (bounded refutation pool)
 
     # ------------------------------------------------------------------ utilities
     def fnid(self, name):
@@ -182,7 +183,31 @@ class Executor:
         r = self.alloc(st, 'dict')
         st.heap.set_ddom(r, z3.K(Ref, z3.BoolVal(False)))
         st.heap.set_dorder(r, z3.IntVal(0), st.heap.dkeys(r))
-        return V(Ty('ref', cls='dict', exact=True, key=kty, val=vty), r)
+        return self.note_dict(V(Ty('ref', cls='dict', exact=True, key=kty, val=vty), r))
+
+    def note_dict(self, v):
+        if isinstance(v, V) and v.kind == 'ref' and v.ty.cls == 'dict':
+            self.dict_terms.setdefault(v.t.get_id(), v.t)
+        return v
+
+    def bound_ref_pool(self, st):
+        """Bounded refutation mode: the finite set of references over which a `refs()` quantifier is
+        expanded -- the keys (first BOUND positions) of every dictionary met so far, in the current and
+        in the entry heap, plus one reference that is a key of none of them."""
+        pool, seen = [], set()
+        heaps = [st.heap] + ([st.old.heap] if st.old is not None else [])
+        for d in self.dict_terms.values():
+            for h in heaps:
+                sym.SIDE.extend(sym.dict_wf(h, d))
+                keys, n = h.dkeys(d), h.dlen(d)
+                for c in range(sym.BOUND):
+                    t = keys[c]
+                    if t.get_id() not in seen:
+                        seen.add(t.get_id())
+                        pool.append((n > c, t))
+        other = z3.Const('other_ref', Ref)
+        pool.append((z3.BoolVal(True), other))
+        return pool
 
     # ------------------------------------------------------------------ running functions
     def run_function(self, fi, self_cls, args, st, depth=0):
@@ -193,7 +218,7 @@ class Executor:
         st.loc = dict(args)
         fr = Frame(fi, self_cls, depth)
         for name, text in self.specs.ghosts.get((fi.qualname, '<entry>'), []):
-            st.loc[name] = self.specs.eval_ghost(self, text, st, fr)
+            self.specs.assign_ghost(self, name, text, st, fr)
         for kind, pay, s1 in self.block(strip_doc(fi.node.body), st, fr):
             if kind == 'next':
                 kind, pay = 'return', vnone()
@@ -263,8 +288,11 @@ class Executor:
             return
         for kind, pay, s1 in m(n, st, fr):
             if kind == 'next':
-                vals = [(name, self.specs.eval_ghost(self, text, s1, fr)) for name, text in gh]
-                for name, v in vals:
+                loc_updates = [(name, self.specs.eval_ghost(self, text, s1, fr)) for name, text in gh if '.' not in name]
+                for name, text in gh:
+                    if '.' in name:
+                        self.specs.assign_ghost(self, name, text, s1, fr)
+                for name, v in loc_updates:
                     s1.loc[name] = v
             yield kind, pay, s1
 
@@ -1349,6 +1377,7 @@ class Executor:
                     s1.assume(z3.Or(v.t == NONE, s1.heap.alive_base()[v.t]))
                 if ty.cls in self.table.classes and ty.cls not in ('list', 'dict'):
                     s1.assume(z3.Or(v.t == NONE, self.isinstance_term(v.t, ty.cls)))
+            self.note_dict(v)
             out.append((v, s1))
         return out
 
@@ -1616,6 +1645,28 @@ class Executor:
             s1.bound = s1.bound[:-1]
             nd = self.new_dict(s1, d.ty.key, valv.ty if valv.kind != 'tuple' else valv.ty)
             dom = h.ddom(d.t)
+            if sym.BOUND is not None:
+                # bounded refutation: build the result key by key (ground), no lambdas
+                sym.SIDE.extend(sym.dict_wf(h, d.t))
+                skeys, sn = h.dkeys(d.t), h.dlen(d.t)
+                ndom = z3.K(Ref, z3.BoolVal(False))
+                nvals = list(s1.heap.darrs(nd.t, nd.ty.val))
+                nkeys = s1.heap.dkeys(nd.t)
+                cnt = z3.IntVal(0)
+                cond_all = z3.And(*conds) if conds else z3.BoolVal(True)
+                for c in range(sym.BOUND):
+                    kc = skeys[c]
+                    take = z3.And(sn > c, z3.substitute(cond_all, (k, kc)))
+                    ndom = z3.If(take, z3.Store(ndom, kc, z3.BoolVal(True)), ndom)
+                    nvals = [z3.If(take, z3.Store(a, kc, z3.substitute(t, (k, kc))), a)
+                             for a, t in zip(nvals, to_leaves(valv, nd.ty.val))]
+                    nkeys = z3.If(take, z3.Store(nkeys, cnt, kc), nkeys)
+                    cnt = z3.If(take, cnt + 1, cnt)
+                s1.heap.set_ddom(nd.t, ndom)
+                s1.heap.set_darrs(nd.t, nd.ty.val, nvals)
+                s1.heap.set_dorder(nd.t, cnt, nkeys)
+                out.append((nd, s1))
+                continue
             s1.heap.set_ddom(nd.t, z3.Lambda([k], z3.And(dom[k], *conds)))
             s1.heap.set_darrs(nd.t, nd.ty.val, [z3.Lambda([k], t) for t in to_leaves(valv, nd.ty.val)])
             # iteration order of the result: a sub-enumeration of the source order (axiomatised lazily by dict_wf)
